@@ -240,6 +240,46 @@ print x
 print f(4)
 print x
 """),
+    ("closure_written_before_a_later_local_of_the_same_name", """
+x = 0
+f = fn() -> int {
+  g = fn() -> int {
+    x += 1
+    return x
+  }
+  x = 7
+  return g() * 100 + x
+}
+h = fn() -> int {
+  x = 100
+  r = f()
+  print r
+  return x
+}
+print h()
+print x
+print f()
+print x
+"""),
+    ("reader_written_before_a_later_local_of_the_same_name_in_factory", """
+mk = fn(k: int) -> fn() -> int {
+  x = k
+  mid = fn() -> fn() -> int {
+    rd = fn() -> int {
+      return x
+    }
+    x = 50
+    return rd
+  }
+  return mid()
+}
+r1 = mk(1)
+r2 = mk(2)
+x = 9
+print r1()
+print r2()
+print x
+"""),
     ("factory_instances_independent", """
 mk = fn() -> [fn() -> int, fn(int) -> int] {
   n = 0
